@@ -30,7 +30,10 @@ ASSUMPTIONS = ["pre-emption at line granularity (opcode in part of the thorough 
 
 def gen_world(seed, tier):
     rng = random.Random(H(seed, "c06"))
-    mode = rng.choices(["safe_sequences", "safe_paths", "cyclic_monitor"], [6, 3, 2])[0]
+    mode = rng.choices(["safe_sequences", "safe_paths", "cyclic_monitor", "flow_safe_monitor"], [6, 3, 2, 1])[0]
+    if mode == "flow_safe_monitor":
+        g = gen.dag_bowtie(rng) if rng.random() < 0.5 else gen.dag_braid(rng, max_routes=4)
+        return {"mode": mode, "graph": g, "seed": rng.randrange(1 << 30), "no_duplicates": rng.random() < 0.5}
     if mode == "cyclic_monitor":
         g = gen.digraph_cyclic(rng, max_nodes=5, max_edges=7, max_routes=3) if rng.random() < 0.5 else gen.digraph_rich(rng, max_nodes=5, max_extra=4)
         return {"mode": mode, "graph": g, "seed": rng.randrange(1 << 30),
@@ -74,6 +77,8 @@ def execute(spec):
     world = spec["world"]
     if world["mode"] == "cyclic_monitor":
         return _execute_cyclic(spec)
+    if world["mode"] == "flow_safe_monitor":
+        return _execute_flow_safe(spec)
     import flowpaths as fp
     from flowpaths.utils import safetypathcovers as spc
     sim = W.SimWorld(world["sched"]["seed"], {})
@@ -180,6 +185,56 @@ def execute(spec):
             "schedule": S.switches[:2000]}
 
 
+def _execute_flow_safe(spec):
+    """Monitored part: flow-decomposition safe paths.  A path e1..ek is in every flow decomposition iff its excess flow
+    f(e1) - sum over inner nodes v_i of (outflow(v_i) - f(e_{i+1})) is positive (the units entering through e1 that the
+    adversary cannot divert); recomputed independently from the caller's graph."""
+    world = spec["world"]
+    from flowpaths.utils import safetyflowdecomp as sfd
+    sim = W.SimWorld(world["seed"], {})
+    vs = []
+    counters = {"mode:flow_safe_monitor": 1}
+    g = world["graph"]
+    flow = {(u, v): f for u, v, f in g["edges"]}
+    out = {}
+    for (u, v), f in flow.items():
+        out[u] = out.get(u, 0) + f
+    with W.active(sim):
+        G = gen.to_nx(g, "flow")
+        try:
+            paths = sfd.compute_flow_decomp_safe_paths(G, "flow", no_duplicates=world["no_duplicates"])
+        except Exception as e:
+            vs.append(Violation(ID, "C06.exception", "flow_safe", {"exc": type(e).__name__, "msg": str(e)[:200]}))
+            paths = []
+    counters["flow_safe:paths"] = len(paths)
+    nonmax = 0
+    for p in paths:
+        es = [tuple(e) for e in p]
+        if any(e not in flow for e in es) or any(a[1] != b[0] for a, b in zip(es[:-1], es[1:])):
+            vs.append(Violation(ID, "C06.flow_safe_not_a_path", "flow_safe", {"path": es}))
+            break
+        ex = flow[es[0]]
+        for a, b in zip(es[:-1], es[1:]):
+            ex -= out[a[1]] - flow[b]
+        if ex <= 1e-12:
+            vs.append(Violation(ID, "C06.unsafe_flow_path", "flow_safe", {"path": es, "excess_flow": ex}))
+            break
+        # maximality (not part of the property; counted only)
+        last = es[-1][1]
+        for (u, v), f in flow.items():
+            if u == last and ex - (out[last] - f) > 1e-12:
+                nonmax += 1
+                break
+    counters["flow_safe:extendable_to_the_right"] = nonmax
+    seen, uniq = set(), []
+    for v in vs:
+        if v.key not in seen:
+            seen.add(v.key)
+            uniq.append(dict(v))
+    return {"violations": uniq, "digest": digest([paths]), "sig": None, "nontrivial": False, "fired": {}, "probes": {},
+            "sim_s": 0.0, "invocations": 0, "counters": counters, "summary": {"safe_paths": len(paths)}}
+
+
 def _execute_cyclic(spec):
     """Monitored part on cyclic graphs (no schedule in it; input-sampled)."""
     world = spec["world"]
@@ -253,7 +308,7 @@ def sample_view(spec, outcome):
 
 def shrink(spec):
     w = spec["world"]
-    if w["mode"] == "cyclic_monitor":
+    if w["mode"] in ("cyclic_monitor", "flow_safe_monitor"):
         return
     if len(w["items"]) > 1:
         for i in range(len(w["items"])):
